@@ -183,6 +183,57 @@ let () = iter_lines (fun l ->
             | _ -> Buffer.add_string buf (Printf.sprintf " rb=%d" (iz room)))
        | None -> ());
       Buffer.contents buf
+  | "pb" :: hex :: off :: len :: ops ->
+      let b = bytes_of_hex hex in
+      let pb = ref (pb_from false (zi (int_of_string off)) (zi (int_of_string len))) in
+      let fault = ref false in
+      let args a = List.map int_of_string (String.split_on_char ',' (String.sub a 1 (String.length a - 1))) in
+      let outs = List.map (fun a ->
+        if !fault then "" else begin
+        let r =
+          match a.[0] with
+          | 'o' -> (match pb_octet b !pb with Ok (Some v, p) -> pb := p; Printf.sprintf "o:%d" (iz v) | Ok (None, _) -> "o:-" | _ -> fault := true; "FAULT")
+          | 'h' -> (match pb_be16 b !pb with Ok (Some v, p) -> pb := p; Printf.sprintf "h:%d" (iz v) | Ok (None, _) -> "h:-" | _ -> fault := true; "FAULT")
+          | 'w' -> (match pb_be32 b !pb with Ok (Some v, p) -> pb := p; Printf.sprintf "w:%d" (iz v) | Ok (None, _) -> "w:-" | _ -> fault := true; "FAULT")
+          | ('t' | 's') as c ->
+              let n = List.hd (args a) in
+              (match pb_try_octets b !pb (zi n) (c = 't') with
+               | Ok (Some v, p) -> pb := p; if c = 't' then Printf.sprintf "t:%08x" (fnv32 v) else "s:1"
+               | Ok (None, _) -> if n = 0 then (if c = 't' then Printf.sprintf "t:%08x" (fnv32 []) else "s:1") else Printf.sprintf "%c:-" c
+               | _ -> fault := true; "FAULT")
+          | 'f' -> let (k, p) = pb_try_forward !pb (zi (List.hd (args a))) in pb := p; Printf.sprintf "f:%d" (iz k)
+          | 'r' -> (match pb_rec_hdr b !pb with
+                    | Ok (Some (((t, ma), mi), l), p) -> pb := p; Printf.sprintf "r:%d,%d,%d,%d" (iz t) (iz ma) (iz mi) (iz l)
+                    | Ok (None, _) -> "r:-" | _ -> fault := true; "FAULT")
+          | 'm' -> (match pb_hs_hdr b !pb with
+                    | Ok (Some (t, l), p) -> pb := p; Printf.sprintf "m:%d,%d" (iz t) (iz l)
+                    | Ok (None, _) -> "m:-" | _ -> fault := true; "FAULT")
+          | 'g' -> Printf.sprintf "g:%d" (iz (pb_remaining !pb))
+          | 'k' -> Printf.sprintf "k:%d" (b2i (pb_can_read !pb (zi (List.hd (args a)))))
+          | 'e' -> pb := { !pb with pb_err = true }; "e:1"
+          | 'v' -> (match args a with
+                    | [mn; mx] -> (match pb_tls_vector b !pb (zi mn) (zi mx) with
+                                   | Ok (VOk (n, d), p) -> pb := p; Printf.sprintf "v:%d,%d" (iz n) (iz d)
+                                   | Ok (VErr rc, _) -> Printf.sprintf "v:%d" (iz rc)
+                                   | _ -> fault := true; "FAULT")
+                    | _ -> "?")
+          | 'V' -> (match args a with
+                    | [s; e; mn; mx] -> (match parse_tls_vec b (zi s) (zi e) (zi mn) (zi mx) with
+                                         | Ok (VOk (n, d)) -> Printf.sprintf "V:%d,%d" (iz n) (iz d)
+                                         | Ok (VErr rc) -> Printf.sprintf "V:%d" (iz rc)
+                                         | _ -> fault := true; "FAULT")
+                    | _ -> "?")
+          | ('c' | 'C') as c ->
+              (match args a with
+               | req :: rest ->
+                   let tl = (match rest with [t] -> t | _ -> 0) in
+                   (match pb_copy_n b !pb (zi req) (c = 'c') (zi tl) with
+                    | Ok ((rc, v), tl') -> Printf.sprintf "%c:%d,%d,%08x" c (iz rc) (iz tl') (if iz rc = 0 then fnv32 v else 0)
+                    | _ -> fault := true; "FAULT")
+               | _ -> "?")
+          | _ -> "?" in
+        if !fault then "FAULT" else Printf.sprintf "%s@%d" r (iz !pb.pb_start) end) ops in
+      if !fault then "FAULT" else String.concat " " outs
   | ["cbc"; rl; mac; blk; pad; eiv; ssl3; eq] ->
       let l = cbc_mac_layout (zi (int_of_string rl)) (zi (int_of_string mac)) (zi (int_of_string blk)) (zi (int_of_string pad)) (eiv = "1") (ssl3 = "1") (eq = "1") in
       if l.cl_sane then Printf.sprintf "V %d %d %d" (iz l.cl_data_off) (iz l.cl_data_len) (iz l.cl_mac_off) else "A 20"
